@@ -167,6 +167,8 @@ pub struct Applied {
     pub post_state: staking::msg::StateResponse,
     /// model-predicted selection of a recovery (sequence numbers), if the action was a recovery
     pub recover_selected: Option<Vec<u64>>,
+    /// the State query failed (or panicked) on the post-state
+    pub post_state_err: Option<String>,
 }
 
 impl Sim {
@@ -277,7 +279,8 @@ impl Sim {
             }
         }
         let post_state = self.w.state();
-        Applied { out, acks, pre_state, post_state, recover_selected }
+        let post_state_err = self.w.state_checked().err();
+        Applied { out, acks, pre_state, post_state, recover_selected, post_state_err }
     }
 
     fn settle(&mut self, seq: u64, kind: u8) -> TxOut {
